@@ -20,8 +20,9 @@ def design(w, share, ext, deep, sn, inn, imid):
         Inst("r0", Prim("R", dict(r=1)), {"p": Sig("g"), "n": Sig("m")}),
         Inst("r1", Prim("R", dict(r=2)), {"p": Sig("m"), "n": Sig("g")}),
         Inst("c0", leaf_ext, {"a": Sig("a"), "b": Sig("m")})][: 3 if ext else 2])
-    leaf2 = leaf if share else Mod("Leaf2", ports=[("a", w), ("g", 1)], insts=[
-        Inst("u", leaf_ext, {"a": Sig("a"), "b": Sig("g")})])
+    leaf2 = leaf if share else Mod("Leaf2", ports=[("a", w), ("g", 1)], sigs=[("m", 1)], insts=[
+        Inst("u", leaf_ext, {"a": Sig("a"), "b": Sig("m")}),
+        Inst("rz", Prim("R", dict(r=4)), {"p": Sig("m"), "n": Sig("g")})])
     # a self-contained (port-less) module with internal nets, instantiated at several places
     cell0 = Mod("Cell0", sigs=[("p", 1), ("q", w)], insts=[
         Inst("ra", Prim("R", dict(r=3)), {"p": Sig("p"), "n": Sig("p")}),
